@@ -53,6 +53,12 @@ Proof.
     eapply N.lt_trans; [exact H|]. apply N.pow_lt_mono_r; lia.
 Qed.
 
+Lemma uleb_len_pos n : (1 <= length (uleb_enc n))%nat.
+Proof.
+  unfold uleb_enc. destruct (N.to_nat (N.size n)); cbn [uleb_enc_f]; [cbn; lia|].
+  destruct (n <? 128); cbn; lia.
+Qed.
+
 Lemma uleb_enc_f_ok f n : n < 2 ^ N.of_nat f -> bytes_ok (uleb_enc_f f n).
 Proof.
   revert n; induction f as [|f IH]; intros n H; cbn [uleb_enc_f].
